@@ -327,9 +327,12 @@ fn scenario(shape: &str, depth: usize, api: &str) -> String {
     let text = text_for(shape, depth);
     if let Some(node) = api.strip_prefix("roundtrip:") {
         use std::hash::{Hash, Hasher};
-        fn life<T: Clone + PartialEq + Hash>(docs: Vec<T>) -> (usize, u64) {
+        fn life<T: Clone + PartialEq + Hash + std::fmt::Debug>(docs: Vec<T>) -> (usize, u64) {
             let c = docs.clone();
             let same = c == docs;
+            // Debug formatting into a counting sink
+            let mut sink = NullWriter(0);
+            let _ = std::fmt::write(&mut sink, format_args!("{docs:?}"));
             let mut h = std::collections::hash_map::DefaultHasher::new();
             docs.hash(&mut h);
             let n = docs.len();
